@@ -294,14 +294,14 @@ async fn run_case(part: &mut Part, case: &Case, books: (&Book, &Book), stores: (
         part.machinery.push(format!("a protocol message could not be serialised for the wire check; {desc}"));
     }
     let filtered = sent_summary.first().map(|s| s != "alice:1/1" && !s.ends_with("/4")).unwrap_or(false);
-    if strict && case.restricted && filtered && part.samples.len() < 2 && case.a_mask == 0b0111 && case.b_mask == 0b1110 {
+    if strict && case.restricted && case.own_reg && filtered && case.a_mask == 0b0111 && case.b_mask == 0b1110 {
         part.samples.push(json!({
             "alice_topics": subset(case.a_mask), "bob_topics": subset(case.b_mask), "intersection": subset(inter_mask),
             "alice_book_others": books.0.others.iter().map(|m| subset(*m)).collect::<Vec<_>>(),
             "bob_book_others": books.1.others.iter().map(|m| subset(*m)).collect::<Vec<_>>(),
             "restricted": case.restricted, "own_topics_in_book": case.own_reg,
             "nodes_sent/allowed": sent_summary,
-            "messages": log.iter().map(|s| format!("{}:{}({} bytes cbor)", if s.from_alice { "A" } else { "B" }, s.variant, s.cbor.len())).collect::<Vec<_>>(),
+            "messages": log.iter().map(|s| format!("{}:{}", if s.from_alice { "A" } else { "B" }, s.variant)).collect::<Vec<_>>(),
         }));
     }
 }
